@@ -103,6 +103,7 @@ def decode_no_raw_echo(ctx, rule='A6'):
     # indexed in choice space (rule A21)
     from . import indexspace
     indexspace.check_index_spaces(ctx, [f'{GP}.get_graph', f'{GP}._update_comb_fixed_mask'])
+    indexspace.check_translation(ctx)
     uses = [x for x in walk_fn(fn) if isinstance(x, ast.Subscript) and norm(x.value) == 'sel_choice_is_active']
     exists(ctx, 'A5', fn, uses, 'inactive-choices-marked',
            'the activeness reported by the analyzer decides which selection-choice entries are used')
